@@ -519,7 +519,7 @@ __CPROVER_assigns(g_simp, g_nsimp, g_next, g_nnext, g_cols, g_ncols, g_cur, g_po
             subs=subs, canary=(r"if \(dim < dim_max\) simplices_swap_next\(\);", "if (dim <= dim_max) simplices_swap_next();"))
     U.append(Unit("reduction.assemble_columns_to_reduce", "C11", [fn], enforce="assemble_columns_to_reduce", globals_=G, unwind=NSI * KC + 3, route="B",
                   bound=f"at most {NSI} simplices in the round, at most {KC} cofacets each; ids, diameters, apparent-pair and pivot tables, dim and dim_max symbolic",
-                  inputs=["in_dim", "dim_max", "g_nsimp", "g_ncof", "g_probe"], replay=replay_by_native_search,
+                  inputs=["in_dim", "dim_max", "g_nsimp", "g_ncof", "g_probe"], replay=replay_by_native_search, runs=[Run(backend="sat", timeout=900)],
                   harness=H("  dimension_t in_dim = (dimension_t)nondet_int(); dim_max = (dimension_t)nondet_int(); g_nsimp = nondet_ulong(); g_nsimp0 = g_nsimp; g_probe = nondet_ulong(); g_nnext = 0; g_ncols = nondet_ulong(); g_sort_calls = 0;\n"
                             "  for (int s = 0; s < NSI; s++) { g_ncof[s] = nondet_uint(); g_simp[s].index = s; }", "assemble_columns_to_reduce(in_dim);"),
                   desc="assemble_columns_to_reduce: while dim < dim_max the round's simplices are replaced by ALL the cofacets the enumerators yield, in order (they are the next round's simplices - otherwise they are left alone); the columns to reduce are exactly the cofacets that are neither in a zero apparent pair nor already pivots, previous content discarded, sorted once as a whole"))
